@@ -20,9 +20,9 @@
     (tested against the real AnalysisHost by checks/C07.py: every query after every history vs a
     fresh host). *)
 From Coq Require Import List NArith Bool.
-From TG.Model Require Import Includes Host HostInst FsOps.
+From TG.Model Require Import Chars Includes Host HostInst FsOps CoreAst AstToCore Pipeline PipelineHost.
 From TG.Gen Require Import GenFileSystem.
-From TG.Proofs Require Import IncludesGraph IncludesRefine HostHistory HostTheorems HostFrame HostTotal HostExamples GenFileSystemEq.
+From TG.Proofs Require Import IncludesGraph IncludesRefine HostHistory HostTheorems HostFrame HostTotal HostExamples GenFileSystemEq PipelineHostFresh PipelineHostFrame PipelineHostExample.
 Import ListNotations.
 Local Open Scope nat_scope.
 
@@ -106,6 +106,63 @@ Theorem C07_model_is_source :
      end).
 Proof. exact (@c07_model_is_source). Qed.
 
+(** C07 FOR THE WHOLE MODELLED PIPELINE (b-bridge's TG.Model.Pipeline: model lexer + preprocessor + parser,
+    M-host, the AST -> Core bridge, the indexer and its queries).
+    [disk0] = the files on disk (path string, text); [Ht ++ [(p, t)]] = the history of touches (path string, new
+    text): text edits, added / removed / retargeted includes, root switches; [final] = the final contents as a
+    file list in which earlier entries shadow later ones (latest touch first, then the disk) - exactly how
+    [analyze]'s in-memory disk looks a path up.  The history is replayed on M-host with the contents [analyze]
+    builds for these texts.  [analyze_from_state] (TG.Model.PipelineHost) assembles the analysis from ANY
+    session state, files numbered in walk order; on the fresh state it IS [analyze] ([C07_analyze_is_from_state]).
+    Then: from the POST-HISTORY state the pipeline computes the same parsed files, parse errors, Core ASTs, Core
+    workspace - hence the same diagnostics, goto_definition and references at every position - as [analyze] from
+    scratch over the final contents.  The host state is read only through [view]
+    (PipelineHostFrame.from_state_obs); what remains assumed for the real code is the step model query -> real
+    query, which the correspondence runs of the checks test. *)
+Theorem C07_pipeline_history_independent :
+  forall pfuel cfuel1 cfuel2 (disk0 Ht : list (text * text)) (p t : text) (st1 : @Host.state fpath text) an,
+  let final := rev (Ht ++ [(p, t)]) ++ disk0 in
+  let dfs := disk_files_of pfuel final in
+  let n := S (List.length Ht) in
+  Host.run cfuel1 (world_of (skipn n dfs)) Host.st_init (rev (firstn n dfs)) = Done st1 ->
+  analyze pfuel cfuel2 final p = Some an ->
+  exists a1, analyze_from_state pfuel final st1 = Some a1 /\
+    an_obs a1 = an_obs an /\
+    forall ws1 ws2, an_core a1 = AstToCore.Ok ws1 -> an_core an = AstToCore.Ok ws2 ->
+      an_diagnostics ws1 = an_diagnostics ws2 /\
+      (forall f pos, an_goto (an_state ws1) f pos = an_goto (an_state ws2) f pos) /\
+      (forall f pos, an_references (an_state ws1) f pos = an_references (an_state ws2) f pos).
+Proof. exact pipeline_queries_history_independent. Qed.
+
+(** [analyze] is [analyze_from_state] of the state after the first touch of a fresh host (there, ascending FileId
+    order is walk order: HostAscending.touch_fresh_ascending) *)
+Theorem C07_analyze_is_from_state :
+  forall pfuel cfuel files root,
+  analyze pfuel cfuel files root =
+  let dfs := disk_files_of pfuel files in
+  let rootp := components root in
+  let rc := match Includes.assoc rootp dfs with
+            | Some c => c
+            | None => {| c_tag := N.of_nat (List.length files); c_items := [] |}
+            end in
+  match Host.touch cfuel (world_of dfs) Host.st_init rootp rc with
+  | Done st => analyze_from_state pfuel files st
+  | _ => None
+  end.
+Proof. exact analyze_is_from_state. Qed.
+
+(** non-vacuity: disk a.td (includes b.td), b.td, c.td; history: a.td retargets its include to c.td, b.td is
+    touched (root switch; it now includes a.td), a.td is touched again (root switch back); both sides run inside
+    Coq; the history's host knows 3 FileIds, a fresh start 2 *)
+Example C07_pipeline_hypotheses_satisfiable :
+  exists st1 an ws,
+    Host.run 20 (world_of (skipn 3 (disk_files_of 400 px_final))) Host.st_init
+             (rev (firstn 3 (disk_files_of 400 px_final))) = Done st1 /\
+    analyze 400 20 px_final px_a = Some an /\
+    an_core an = AstToCore.Ok ws /\ List.length (ws_files ws) = 2 /\ an_perrs an = [] /\
+    List.length (ids (fst st1)) = 3.
+Proof. exact pipeline_hypotheses_satisfiable. Qed.
+
 Check C07_history_independent :
   forall (path istr : Type) (PA : PathAlg path istr) (PAok : PathAlgOk path istr)
          (w : world path istr) h p c fuel1 fuel2 (st1 st2 : @state path istr),
@@ -120,3 +177,5 @@ Print Assumptions C07_queries.
 Print Assumptions C07_history_independent_total.
 Print Assumptions C07_raw_api_refuted.
 Print Assumptions C07_model_is_source.
+Print Assumptions C07_pipeline_history_independent.
+Print Assumptions C07_analyze_is_from_state.
